@@ -11,6 +11,15 @@
 //! re-parses the string: one (type, size) entry per conversion item, `Err` iff some conversion is long / long long /
 //! long double.  Bounds: all item sequences of length <= 3 over a small item alphabet, then seeded random sequences of
 //! up to 8 items.
+//!
+//! Twin `c20.regex_model` (ASSUMPTION CHECK for unit `formatstr`): the deductive unit verifies `parse_format_string_parameters`
+//! against a TRUSTED MODEL of its one regular expression (`fs_captures` in /verif/spec/formatstr.rs).  `model_captures` below is
+//! a line-by-line executable copy of that spec function; it is compared with the real `regex` crate (`captures_iter` +
+//! `cap.get(0)` / `cap.get(1)`) on ALL strings over a 12-character alphabet up to length 7 and on seeded random longer strings
+//! over a wider alphabet (every conversion letter, the flags, '.', digits, non-ASCII decimal digits and non-digit numerals).
+//! The regex literal is taken from the source file of the tree under test, so an edited regex is compared as well (a
+//! disagreement then means "the model no longer describes this regex", i.e. the proof's assumption is void -- the verdict on
+//! the property for such a tree is `c20.parse`'s).
 use crate::util::Rng;
 use cwe_checker_lib::intermediate_representation::{ByteSize, Datatype, DatatypeProperties};
 use cwe_checker_lib::utils::arguments::parse_format_string_parameters;
@@ -171,12 +180,24 @@ fn enumerate(seed: u64, budget: usize, evaluations: &mut usize) -> Option<Value>
     None
 }
 
-pub fn search(_twin: &str, _case: Option<&str>, seed: u64) -> Option<Value> {
+pub fn search(twin: &str, _case: Option<&str>, seed: u64) -> Option<Value> {
+    if twin == "c20.regex_model" {
+        let mut e = 0;
+        return model_enumerate(seed, 5, 20000, &mut e);
+    }
     let mut e = 0;
     enumerate(seed, 20000, &mut e)
 }
 
-pub fn replay(_twin: &str, input: &Value) -> Value {
+pub fn replay(twin: &str, input: &Value) -> Value {
+    if twin == "c20.regex_model" || input["fn"] == "regex_model" {
+        let text = input["text"].as_str().unwrap_or("").to_string();
+        let (re, _) = tree_regex();
+        return match model_check(&re, &text) {
+            Some(v) => json!({"agrees": false, "expected": v["expected"], "observed": v["observed"], "input": input}),
+            None => json!({"agrees": true, "input": input}),
+        };
+    }
     let items = items_from(&input["items"]);
     match check(&items) {
         Some(v) => json!({"agrees": false, "expected": v["expected"], "observed": v["observed"], "input": input}),
@@ -185,8 +206,144 @@ pub fn replay(_twin: &str, input: &Value) -> Value {
 }
 
 pub fn sweep(twin: &str, seed: u64) -> Value {
+    if twin == "c20.regex_model" {
+        let mut e = 0;
+        let r = model_enumerate(seed, 7, 300000, &mut e);
+        let (_, same) = tree_regex();
+        return json!({"twin": twin, "bounded": true, "evaluations": e,
+            "bound": "all strings of length <= 7 over 12 characters; 300000 random strings of length 7..=24 over 46 characters; capture indices 0, 1 and 2",
+            "regex_literal_is_the_modelled_one": same,
+            "disagreements": if r.is_some() { 1 } else { 0 }, "first": r});
+    }
     let mut e = 0;
     let r = enumerate(seed, 200000, &mut e);
     json!({"twin": twin, "bounded": true, "evaluations": e, "bound": "all item sequences of length <= 3 over 19 items; 200000 random sequences of <= 8 items",
            "disagreements": if r.is_some() { 1 } else { 0 }, "first": r})
+}
+
+// ---------------------------------------------------------------------------------------------------------------------
+// c20.regex_model -- executable copy of /verif/spec/formatstr.rs (fs_flag .. fs_captures) against the real `regex` crate
+// ---------------------------------------------------------------------------------------------------------------------
+
+/// the literal the model was written from (utils/arguments.rs at /repo commit 85876a6)
+const MODELLED_REGEX: &str = r"%%|%[+\-#0]{0,1}\d*[\.]?\d*([cCdiouxXeEfFgGaAnpsS]|hi|hd|hu|li|ld|lu|lli|lld|llu|lf|lg|le|la|lF|lG|lE|lA|Lf|Lg|Le|La|LF|LG|LE|LA)";
+
+/// The regex of the tree under test: the first raw string literal after `fn parse_format_string_parameters` in
+/// utils/arguments.rs of $VERIF_REPO (default /repo).  Falls back to the modelled literal when the file cannot be read.
+fn tree_regex() -> (regex::Regex, bool) {
+    let root = std::env::var("VERIF_REPO").unwrap_or_else(|_| "/repo".to_string());
+    let path = format!("{}/src/cwe_checker_lib/src/utils/arguments.rs", root.trim_end_matches('/'));
+    let lit = std::fs::read_to_string(path).ok().and_then(|src| {
+        let from = src.find("fn parse_format_string_parameters")?;
+        let rest = &src[from..];
+        let a = rest.find("Regex::new(r\"")? + "Regex::new(r\"".len();
+        let b = rest[a..].find('"')?;
+        Some(rest[a..a + b].to_string())
+    });
+    let lit = lit.unwrap_or_else(|| MODELLED_REGEX.to_string());
+    let same = lit == MODELLED_REGEX;
+    (regex::Regex::new(&lit).unwrap_or_else(|_| regex::Regex::new(MODELLED_REGEX).unwrap()), same)
+}
+
+/// non-ASCII characters the generators use, with their membership in the Unicode category Nd (the spec leaves
+/// `fs_unicode_nd` uninterpreted; the executable copy knows it for exactly these characters)
+const NON_ASCII: [(char, bool); 5] = [('\u{0663}', true), ('\u{FF15}', true), ('\u{00B2}', false), ('\u{2167}', false), ('\u{00E9}', false)];
+
+fn m_flag(c: char) -> bool { c == '+' || c == '-' || c == '#' || c == '0' }
+fn m_digit(c: char) -> bool { c.is_ascii_digit() || NON_ASCII.iter().any(|(d, nd)| *d == c && *nd) }
+fn m_conv1(c: char) -> bool { "cCdiouxXeEfFgGaAnpsS".contains(c) }
+fn m_idu(c: char) -> bool { c == 'i' || c == 'd' || c == 'u' }
+fn m_fgea(c: char) -> bool { "fgeaFGEA".contains(c) }
+
+fn m_skip_digits(s: &[char], i: usize) -> usize {
+    if i < s.len() && m_digit(s[i]) { m_skip_digits(s, i + 1) } else { i }
+}
+
+fn m_spec_at(s: &[char], d: usize) -> Option<usize> {
+    if !(d < s.len()) { None }
+    else if m_conv1(s[d]) { Some(1) }
+    else if d + 1 < s.len() && s[d] == 'h' && m_idu(s[d + 1]) { Some(2) }
+    else if d + 1 < s.len() && s[d] == 'l' && m_idu(s[d + 1]) { Some(2) }
+    else if d + 2 < s.len() && s[d] == 'l' && s[d + 1] == 'l' && m_idu(s[d + 2]) { Some(3) }
+    else if d + 1 < s.len() && s[d] == 'l' && m_fgea(s[d + 1]) { Some(2) }
+    else if d + 1 < s.len() && s[d] == 'L' && m_fgea(s[d + 1]) { Some(2) }
+    else { None }
+}
+
+/// fs_match: (length of the match, group 1 as a character range) at the START of s
+fn m_match(s: &[char]) -> Option<(usize, Option<(usize, usize)>)> {
+    if s.len() < 2 || s[0] != '%' { None }
+    else if s[1] == '%' { Some((2, None)) }
+    else {
+        let a = if m_flag(s[1]) { 2 } else { 1 };
+        let b = m_skip_digits(s, a);
+        let c = if b < s.len() && s[b] == '.' { b + 1 } else { b };
+        let d = m_skip_digits(s, c);
+        match m_spec_at(s, d) {
+            Some(k) => Some((d + k, Some((d, d + k)))),
+            None => None,
+        }
+    }
+}
+
+/// fs_captures
+fn model_captures(s: &[char], index: usize) -> Vec<Option<String>> {
+    let mut out = vec![];
+    let mut s = s;
+    while !s.is_empty() {
+        match m_match(s) {
+            Some((n, g)) => {
+                out.push(if index == 0 { Some(s[..n].iter().collect()) } else if index == 1 { g.map(|(a, b)| s[a..b].iter().collect()) } else { None });
+                s = &s[n..];
+            }
+            None => s = &s[1..],
+        }
+    }
+    out
+}
+
+fn real_captures(re: &regex::Regex, text: &str, index: usize) -> Vec<Option<String>> {
+    re.captures_iter(text).map(|cap| cap.get(index).map(|m| m.as_str().to_string())).collect()
+}
+
+fn model_check(re: &regex::Regex, text: &str) -> Option<Value> {
+    let chars: Vec<char> = text.chars().collect();
+    for index in [1usize, 0, 2] {
+        let expected = model_captures(&chars, index);
+        let got = real_captures(re, text, index);
+        if expected != got {
+            return Some(json!({"input": {"fn": "regex_model", "text": text, "capture_index": index},
+                "expected": expected, "observed": got}));
+        }
+    }
+    None
+}
+
+fn model_enumerate(seed: u64, max_len: usize, budget: usize, evaluations: &mut usize) -> Option<Value> {
+    let (re, _) = tree_regex();
+    let small: Vec<char> = "%dlihLf05.+z".chars().collect();
+    let n = small.len();
+    for len in 0..=max_len {
+        let total = n.pow(len as u32);
+        for code in 0..total {
+            let mut c = code;
+            let text: String = (0..len).map(|_| { let ch = small[c % n]; c /= n; ch }).collect();
+            *evaluations += 1;
+            if let Some(v) = model_check(&re, &text) {
+                return Some(v);
+            }
+        }
+    }
+    let mut wide: Vec<char> = "%%%%cCdiouxXeEfFgGaAnpsShlL+-#0123456789.. z*".chars().collect();
+    wide.extend(NON_ASCII.iter().map(|(c, _)| *c));
+    let mut rng = Rng(seed ^ 0x2021);
+    for _ in 0..budget {
+        let len = 7 + (rng.next() % 18) as usize;
+        let text: String = (0..len).map(|_| wide[(rng.next() % wide.len() as u64) as usize]).collect();
+        *evaluations += 1;
+        if let Some(v) = model_check(&re, &text) {
+            return Some(v);
+        }
+    }
+    None
 }
